@@ -45,6 +45,7 @@ FUZZ = {
 ENUM = {
     "C01": dict(preempt=2), "C02": dict(preempt=2), "C03": dict(preempt=2), "C12": dict(preempt=2),
     "C07": dict(preempt=2, max_runs=60000), "C08": dict(preempt=2, max_runs=60000), "C20": dict(preempt=8, max_runs=60000),
+    "C11": dict(preempt=2, max_runs=60000),
 }
 
 RULE = {
